@@ -1,7 +1,129 @@
 ------------------------------ MODULE Queries ------------------------------
-(* Read-only requests: block-level algorithms, abstract answers, and the   *)
-(* clauses that compare the implementation's logged answers with them.     *)
+(***************************************************************************)
+(* Read-only requests.  For each family of queries: the block-level        *)
+(* algorithm the code runs (transcribed), the abstract answer a user is    *)
+(* entitled to, and the clauses comparing the implementation's LOGGED      *)
+(* answers with them.  A clause group is evaluated only when the step's q  *)
+(* record carries its data.                                                *)
+(***************************************************************************)
 EXTENDS TraphImpl, TraphAbs
 
-QueryClauses(post, rm, d, S) == <<>>
+FailNamesQ(q) == LET f == SelectSeq(q, LAMBDA c : ~c[2]) IN [j \in 1..Len(f) |-> f[j][1]]
+Has(q, f) == f \in DOMAIN q
+SeqSet(q) == { q[j] : j \in 1..Len(q) }
+
+(***************************************************************************)
+(* Observations as sets                                                    *)
+(***************************************************************************)
+PSet(o) == { o.pages[j].l : j \in 1..Len(o.pages) }
+CSet(o) == { o.pages[j].l : j \in { i \in 1..Len(o.pages) : o.pages[i].cr } }
+WSet(o) == { <<o.we[j].l, o.we[j].id>> : j \in 1..Len(o.we) }
+OutT(o) == { <<o.outs[j].s, o.outs[j].t, o.outs[j].w>> : j \in 1..Len(o.outs) }
+InT(o)  == { <<o.ins[j].s, o.ins[j].t, o.ins[j].w>> : j \in 1..Len(o.ins) }
+
+(* the abstract state the implementation itself reports, completed with    *)
+(* what only the files show (rule flags, findable set, header id)          *)
+AbsPre(o, st) ==
+  [pages |-> PSet(o), crawled |-> CSet(o), links |-> OutT(o), we |-> WSet(o),
+   flags |-> RuleFlagsOf(st.trie), lastId |-> st.lastId, known |-> KnownOf(st.trie)]
+
+
+(***************************************************************************)
+(* C02: the three access paths                                             *)
+(***************************************************************************)
+LookupClauses(post, q) ==
+  LET K == KnownOf(post.trie) IN
+  FailNamesQ(<<
+    <<"C02.lookup",  \A j \in 1..Len(q.lookup) : q.lookup[j].found = (q.lookup[j].l \in K)>>,
+    <<"C02.lookup.model", \A j \in 1..Len(q.lookup) : (LruNode(post.trie, q.lookup[j].l) # 0) = q.lookup[j].found>>,
+    <<"C02.windup",  \A j \in 1..Len(q.lookup) : q.lookup[j].found => q.lookup[j].wind = q.lookup[j].l>>,
+    <<"C02.nofail",  q.dfsexc = "" /\ \A j \in 1..Len(q.lookup) : q.lookup[j].exc = "">>,
+    <<"C02.dfs",     SeqSet(q.dfs) = K /\ Len(q.dfs) = Cardinality(K)>>,
+    <<"C02.dfs.order", q.dfs = [j \in 1..Len(DfsRoot(post.trie)) |-> DfsRoot(post.trie)[j][2]]>>
+  >>)
+
+(***************************************************************************)
+(* C03: enumerations and degrees                                           *)
+(***************************************************************************)
+LinkClauses(post, o, q) ==
+  LET T == OutT(o)
+      outPairs == { <<q.lo[j].s, q.lo[j].t>> : j \in 1..Len(q.lo) }
+      inPairs  == { <<q.li[j].o, q.li[j].p>> : j \in 1..Len(q.li) }
+      OutDeg(l)  == Cardinality({ e \in T : e[1] = l /\ e[2] # l })
+      InDeg(l)   == Cardinality({ e \in T : e[2] = l /\ e[1] # l })
+      SelfDeg(l) == Cardinality({ e \in T : e[1] = l /\ e[2] = l })
+      OutW(l)  == SumW({ e \in T : e[1] = l /\ e[2] # l })
+      InW(l)   == SumW({ e \in T : e[2] = l /\ e[1] # l })
+      SelfW(l) == SumW({ e \in T : e[1] = l /\ e[2] = l })
+  IN FailNamesQ(<<
+    <<"C03.iter",      q.liexc = "" /\ outPairs = BagPairs(T) /\ inPairs = BagPairs(T)>>,
+    <<"C03.iter.once", Len(q.lo) = Cardinality(outPairs) /\ Len(q.li) = Cardinality(inPairs)>>,
+    <<"C03.degree",    \A j \in 1..Len(q.deg) :
+                          LET r == q.deg[j] IN
+                          /\ r.o = OutDeg(r.l) /\ r.i = InDeg(r.l)
+                          /\ r.d = OutDeg(r.l) + InDeg(r.l) + SelfDeg(r.l)
+                          /\ r.ow = OutW(r.l) /\ r.iw = InW(r.l)
+                          /\ r.dw = OutW(r.l) + InW(r.l) + SelfW(r.l)>>,
+    <<"C03.degree.all", { q.deg[j].l : j \in 1..Len(q.deg) } = PSet(o)>>
+  >>)
+
+(***************************************************************************)
+(* C04: resolution of arbitrary LRUs                                       *)
+(***************************************************************************)
+ResolveClauses(post, o, q) ==
+  LET A == AbsPre(o, post) IN
+  FailNamesQ(<<
+    <<"C04.resolve", \A j \in 1..Len(q.res) :
+                        LET r == q.res[j]  w == Resolve(A, r.l) IN
+                        /\ r.we = w
+                        /\ r.e1 = (IF w = 0 THEN "TraphException" ELSE "")>>,
+    <<"C04.prefix",  \A j \in 1..Len(q.res) :
+                        LET r == q.res[j]  w == Resolve(A, r.l) IN
+                        /\ r.p = ResolvePrefix(A, r.l)
+                        /\ r.e2 = (IF w = 0 THEN "TraphException" ELSE "")>>,
+    <<"C04.byprefix", \A j \in 1..Len(q.res) :
+                        LET r == q.res[j] IN
+                        IF r.l \in Owned(A) THEN r.by = WeAt(A, r.l) /\ r.e3 = ""
+                        ELSE r.by = 0 /\ r.e3 = "TraphException">>,
+    <<"C04.model",   \A j \in 1..Len(q.res) :
+                        FollowLru(post.trie, q.res[j].l).hist.we = Resolve(A, q.res[j].l)>>
+  >>)
+
+(***************************************************************************)
+(* C06: potential prefix = max(E, K), index untouched                      *)
+(***************************************************************************)
+PotentialClauses(post, rm, d, o, q) ==
+  LET A == AbsPre(o, post) IN
+  FailNamesQ(<<
+    <<"C06.potential", \A j \in 1..Len(q.pot) :
+                          LET r == q.pot[j] IN
+                          RamComplete(A, rm, r.l) =>
+                            (r.exc = "" /\ r.p = PotentialPrefix(A, rm, d, r.l))>>,
+    <<"C06.potential.pure", q.wrote = 0>>
+  >>)
+
+(***************************************************************************)
+(* C19: the metrics figures                                                *)
+(***************************************************************************)
+MetricsClauses(post, o, q) ==
+  LET m == q.metrics
+      tails == Cardinality({ b \in 1..Len(post.trie) : post.trie[b].t })
+      frag  == Cardinality({ b \in 1..Len(post.trie) : post.trie[b].mo })
+  IN IF Len(post.trie) = 0 THEN <<>>     \* metrics() of an empty index divides by zero (outside C19)
+     ELSE FailNamesQ(<<
+       <<"C19.metrics", /\ m.exc = ""
+                        /\ m.nodes = Len(post.trie)
+                        /\ m.pages = Cardinality(PSet(o)) /\ m.crawled = Cardinality(CSet(o))
+                        /\ m.tails = tails /\ m.stems = Len(post.trie) - tails
+                        /\ m.frag = frag
+                        /\ m.links = SumW(OutT(o))>>
+     >>)
+
+QueryClauses(post, rm, d, S) ==
+  LET q == S.q  o == S.obs IN
+     (IF Has(q, "lookup")  THEN LookupClauses(post, q) ELSE <<>>)
+  \o (IF Has(q, "lo")      THEN LinkClauses(post, o, q) ELSE <<>>)
+  \o (IF Has(q, "res")     THEN ResolveClauses(post, o, q) ELSE <<>>)
+  \o (IF Has(q, "pot")     THEN PotentialClauses(post, rm, d, o, q) ELSE <<>>)
+  \o (IF Has(q, "metrics") THEN MetricsClauses(post, o, q) ELSE <<>>)
 =============================================================================
